@@ -116,16 +116,16 @@ def utf16Units : List Nat → List Nat
     if c < 0x10000 then c :: utf16Units cs
     else (0xD800 + (c - 0x10000) / 1024) :: (0xDC00 + (c - 0x10000) % 1024) :: utf16Units cs
 
-def beBytes : List Nat → Bytes
+def unitsBE : List Nat → Bytes
   | [] => []
-  | u :: us => (u / 256).toUInt8 :: (u % 256).toUInt8 :: beBytes us
+  | u :: us => (u / 256).toUInt8 :: (u % 256).toUInt8 :: unitsBE us
 
 def isAsciiTitle (t : List Nat) : Bool := t.all (· < 128)
 
 /-- the `title_bytes` expression of `outline_child` -/
 def titleBytes (t : List Nat) : Bytes :=
   if isAsciiTitle t then t.map Nat.toUInt8
-  else OUTLINE_BOM ++ beBytes (utf16Units t)
+  else OUTLINE_BOM ++ unitsBE (utf16Units t)
 
 /-- `char::decode_utf16` + `unwrap_or(REPLACEMENT_CHARACTER)` = `String::from_utf16_lossy` -/
 def utf16Lossy : List Nat → List Nat
